@@ -12,7 +12,7 @@ import ast
 from typing import Dict, List
 
 from ..absdom import boolform as B
-from ..absdom.facts import OPAQUE, Const, Interp, Misuse, Undecided, operands
+from ..absdom.facts import OPAQUE, AllParams, Const, Interp, Misuse, Undecided, operands
 from ..flow import RAISE, attr_chain, def_id, dump, kwarg, paths
 from ..repo import AnalysisError, Repo
 from ..util import ends
@@ -44,6 +44,9 @@ def r1_facts(repo: Repo, rep):
                  floor=40, why="a returned row for which the implication fails lies, for a generic operand pair, outside the set")
     Rb = rep.rule("R-C01-1b", "the fact set of every returned operand is satisfiable (a filter that can never accept delivers no point / loops forever)", floor=40,
                   why="an unsatisfiable filter means the sampler cannot return the requested points")
+    Rc = rep.rule("R-C01-1c", "proposals drawn one per parameter row (n=1 with the whole parameter set) reach the result slot by slot: accepted rows are "
+                  "stored at their own index, never packed together", floor=4,
+                  why="operands may depend on the parameters: a point accepted for parameter row j that ends up in row k is tested and used with row k's shape")
     total_ops = 0
     for mod, cname in CLASSES:
         ci = repo.cls(f"{OPS}.{mod}.{cname}")
@@ -64,7 +67,7 @@ def r1_facts(repo: Repo, rep):
             rep.saw(fi)
             it = Interp(repo, ci, F, is_b)
             try:
-                rets = it.entry(fi, {p: OPAQUE for p in fi.params[1:]})
+                rets = it.entry(fi, {p: (AllParams() if p == "params" else OPAQUE) for p in fi.params[1:]})
             except Undecided as e:
                 rep.undecided(R, fi.site(), fi.fq, "sampling function interpretable", str(e))
                 continue
@@ -92,6 +95,11 @@ def r1_facts(repo: Repo, rep):
                               f"{o.origin}: {B.show(o.facts)}")
                     sat = B.satisfiable(o.facts, closed_only)
                     rep.check(Rb, sat, fi.site(site), fi.fq, "facts satisfiable under closedness", f"operand from {o.origin}: {B.show(o.facts)}", f"{o.origin}: {B.show(o.facts)}")
+                    if o.packed:
+                        rep.violation(Rc, fi.site(site), fi.fq, "rows accepted out of a one-point-per-parameter-row proposal keep their slot (buffer[idx] = rows[idx])",
+                                      f"operand from {o.origin}: accepted rows are packed together, row k of the result no longer belongs to parameter row k", f"{o.origin}: packed rows")
+                    elif o.paired:
+                        rep.ok(Rc, fi.site(site), fi.fq, "one-point-per-parameter-row proposals keep their slot", f"operand from {o.origin}")
     rep.extra["returned_operands"] = total_ops
 
 
@@ -522,6 +530,8 @@ def run(repo: Repo, rep):
     r9_motion_params(repo, rep)
     from .c11 import r4_mirror  # barycentric pairs stay admissible only if the pairs with u + v >= 1 (and only those rows) are mirrored
     r4_mirror(repo, rep)
+    from .c17 import r5_point_data  # samples of a partially evaluated product lie in it only if the fixed factor's Point has its coordinates in space order
+    r5_point_data(repo, rep)
 
 
 _H = "src/torchphysics/problem/domains/domainoperations/sampler_helper.py"
